@@ -57,6 +57,14 @@ def do_import(wt, prop, tag=""):
             res["demo_clean"] = {"rc": rc, "tail": out.strip().splitlines()[-1:] }
             rc, out = sh(f"git apply {patch}", cwd=SCRATCH)
             if rc != 0:
+                # the base moved on (a later fix commit): try a 3-way merge and keep the regenerated patch
+                rc, out = sh(f"git apply --3way {patch}", cwd=SCRATCH)
+                if rc == 0:
+                    sh("git reset -q", cwd=SCRATCH)
+                    rc2, newp = sh("git diff", cwd=SCRATCH)
+                    open(patch, "w").write(newp)
+                    res["rebased_3way"] = True
+            if rc != 0:
                 print(sid, "PATCH DOES NOT APPLY", out[:200])
                 continue
             rc, out = sh("/venv/bin/python -c 'import django_components'", cwd=SCRATCH, env=env)
